@@ -43,6 +43,7 @@ def register(reg):
   c = reg.contract(V, 'InRange.__call__', props=['C07'])
   c.param('value', NUM).returns('bool')
   c.requires('types', type_ok).requires('limits', lim_ok)
+  c.option(implicit_raises=('OverflowError',))   # math.isnan(int) may raise; the code must handle it
   c.ensures('inclusive_range',
             'result == (value is not None and not isnan(value)'
             ' and (self._minimum is None or value >= %s) and (self._maximum is None or value <= %s))' % (lo, hi))
@@ -52,6 +53,7 @@ def register(reg):
   c.param('value', NUM).returns('bool')
   c.requires('types', type_ok).requires('limits', lim_ok)
   c.requires('wf', '(self._marginal_minimum is None or self._minimum is not None) and (self._marginal_maximum is None or self._maximum is not None)')
+  c.option(implicit_raises=('OverflowError',))
   c.ensures('marginal_band',
             'result == (value is not None and not isnan(value) and ('
             '(self._marginal_minimum is not None and %s <= value and value <= %s) or '
@@ -79,11 +81,141 @@ def register(reg):
               if False else
               'same(self._minimum, minimum) and same(self._maximum, maximum) and '
               'same(self._marginal_minimum, marginal_minimum) and same(self._marginal_maximum, marginal_maximum)')
+    c.modifies('self._minimum', 'self._maximum', 'self._marginal_minimum', 'self._marginal_maximum')
     if extra:
       c.ensures('stores_type', 'same(self._type, type)')
+      c.modifies('self._type')
+
+  # ---------------------------------------------------------------- AllInRangeValidator
+  VALS = 'list[val{bool,int,float}]'
+  nonan_all = ' and '.join('not (isinstance(self.%s, float) and isnan(self.%s))' % (f, f)
+                           for f in ('_minimum', '_maximum', '_marginal_minimum', '_marginal_maximum'))
+  c = reg.contract(V, 'AllInRangeValidator.__call__', props=['C07'])
+  c.param('values', VALS).returns('bool').requires('limits', nonan_all).modifies()
+  c.ensures('all_inclusive',
+            'result == ((self._minimum is None or all(v >= self._minimum for v in values))'
+            ' and (self._maximum is None or all(v <= self._maximum for v in values)))')
+  c = reg.contract(V, 'AllInRangeValidator.is_marginal', props=['C07'])
+  c.param('values', VALS).returns('bool').requires('limits', nonan_all).modifies()
+  c.requires('wf', '(self._marginal_minimum is None or self._minimum is not None) and (self._marginal_maximum is None or self._maximum is not None)')
+  c.ensures('any_in_band',
+            'result == ((self._marginal_maximum is not None and any(self._marginal_maximum <= v and v <= self._maximum for v in values))'
+            ' or (self._marginal_minimum is not None and any(self._minimum <= v and v <= self._marginal_minimum for v in values)))')
+
+  # ---------------------------------------------------------------- WithinPercent
+  finite = ('(not isinstance(self.expected, float) or isfinite(self.expected)) and '
+            '(not isinstance(self.percent, float) or isfinite(self.percent)) and '
+            '(not isinstance(self.marginal_percent, float) or isfinite(self.marginal_percent))')
+  small = ('(not isinstance(self.expected, int) or (-2**500 < self.expected and self.expected < 2**500)) and '
+           '(not isinstance(self.percent, int) or (-2**500 < self.percent and self.percent < 2**500)) and '
+           '(not isinstance(self.marginal_percent, int) or (-2**500 < self.marginal_percent and self.marginal_percent < 2**500))')
+  c = reg.contract(V, 'WithinPercent.__init__', props=['C07'])
+  c.param('expected', 'val{int,float}').param('percent', 'val{int,float}').param('marginal_percent', 'val{none,int,float}')
+  c.requires('nonan', 'not (isinstance(percent, float) and isnan(percent)) and not (isinstance(marginal_percent, float) and isnan(marginal_percent))')
+  badp = 'percent < 0 or (marginal_percent is not None and marginal_percent >= percent)'
+  c.raises('ValueError', when=badp)
+  c.ensures('accepts_only_consistent', 'not (%s)' % badp)
+  c.ensures('stores', 'same(self.expected, expected) and same(self.percent, percent) and same(self.marginal_percent, marginal_percent)')
+  c.modifies('self.expected', 'self.percent', 'self.marginal_percent')
+
+  for prop_name, pct in (('_applied_percent', 'self.percent'), ('_applied_marginal_percent', 'self.marginal_percent')):
+    c = reg.contract(V, 'WithinPercent.' + prop_name, props=['C07'])
+    c.requires('finite', finite).requires('int_limits_in_float_range', small)
+    c.returns('float' if prop_name == '_applied_percent' else 'val{int,float}').function_of('self.expected', pct).modifies()
+    # the tolerance is a magnitude: never negative (this is what makes the band symmetric for negative expected values)
+    c.ensures('tolerance_nonnegative', 'result >= 0')
+    if prop_name == '_applied_marginal_percent':
+      c.ensures('zero_without_marginal', 'implies(isinstance(result, int), result == 0)')
+      c.ensures('float_with_marginal', 'isinstance(result, int) == (not self.marginal_percent)')
+
+  c = reg.contract(V, 'WithinPercent.__call__', props=['C07'])
+  c.param('value', 'val{bool,int,float}').returns('bool').modifies()
+  c.requires('finite', finite).requires('int_limits_in_float_range', small)
+  c.requires('value_in_float_range', 'not isinstance(value, int) or isinstance(value, bool) or (-2**500 < value and value < 2**500)')
+  c.ensures('symmetric_band', 'result == (self.expected - self._applied_percent <= value and value <= self.expected + self._applied_percent)')
+  c.ensures('expected_is_accepted',
+            'implies(same(value, self.expected) and (not isinstance(value, int) or (-2**53 <= value and value <= 2**53)), result)')
+
+  c = reg.contract(V, 'WithinPercent.is_marginal', props=['C07'])
+  c.param('value', 'val{bool,int,float}').returns('bool').modifies()
+  c.requires('finite', finite).requires('int_limits_in_float_range', small)
+  c.requires('value_in_float_range', 'not isinstance(value, int) or isinstance(value, bool) or (-2**500 < value and value < 2**500)')
+  c.requires('constructed', 'self.percent >= 0 and (self.marginal_percent is None or self.marginal_percent < self.percent)')
+  c.ensures('marginal_lies_inside_tolerance',
+            'implies(result, self.expected - self._applied_percent <= value and value <= self.expected + self._applied_percent)')
+  c.ensures('no_marginal_without_percent', 'implies(self.marginal_percent is None, not result)')
+
+  # ---------------------------------------------------------------- Equals and the factories
+  c = reg.contract(V, 'Equals.__call__', props=['C07'])
+  c.param('value', 'val{none,bool,int,float,str}').returns('bool').modifies()
+  reg.shape('Equals', _expected='val{none,bool,int,float,str}', _type=TYPE)
+  c.ensures('equal_to_converted_expected', 'result == (value == %s)' % _conv('self._type', 'self._expected'))
+
+  for fname, numeric_cls in (('equals', 'InRange'), ('all_equals', 'AllInRangeValidator')):
+    c = reg.contract(V, fname, props=['C07'])
+    c.param('value', 'val{none,bool,int,float,str}').param('type', TYPE)
+    c.requires('nonan', 'not (isinstance(value, float) and isnan(value))')
+    c.requires('string_type', 'not isinstance(value, str) or type is None')
+    c.returns('ref:ValidatorBase')
+    c.ensures('numbers_get_a_closed_range',
+              'implies(isnum(value), exact_class(result, %s) and same(cast(result, %s)._minimum, value) and same(cast(result, %s)._maximum, value)'
+              ' and cast(result, %s)._marginal_minimum is None and cast(result, %s)._marginal_maximum is None%s)'
+              % (numeric_cls, numeric_cls, numeric_cls, numeric_cls, numeric_cls, ' and same(cast(result, InRange)._type, type)' if fname == 'equals' else ''))
+    c.ensures('strings_get_an_anchored_escaped_regex',
+              "implies(isinstance(value, str), exact_class(result, RegexMatcher) and cast(result, RegexMatcher).regex == '^' + re.escape(value) + '$'"
+              " and pattern_of(cast(result, RegexMatcher)._compiled) == cast(result, RegexMatcher).regex)")
+    if fname == 'equals':
+      c.ensures('others_get_equals', 'implies(value is None, exact_class(result, Equals) and same(cast(result, Equals)._expected, value) and same(cast(result, Equals)._type, type))')
+
+  reg.shape('RegexMatcher', regex='str', _compiled='ref:regex')
+  c = reg.contract(V, 'RegexMatcher.__call__', props=['C07'])
+  c.param('value', 'val{none,bool,int,float,str}').returns('bool').modifies()
+  c.ensures('matched_from_the_start_of_str_value', 'result == re_match(pattern_of(self._compiled), str(value))')
+  c = reg.contract(V, 'RegexMatcher.__deepcopy__', props=['C07'])
+  c.param('dummy_memo', 'val{none}').returns('ref:RegexMatcher').modifies()
+  c.ensures('copy_decides_identically', 'exact_class(result, RegexMatcher) and result.regex == self.regex and result._compiled is self._compiled')
+  c = reg.contract(V, 'matches_regex', props=['C07'])
+  c.param('regex', 'str').returns('ref:RegexMatcher')
+  c.ensures('compiled_from_the_given_text', 'exact_class(result, RegexMatcher) and result.regex == regex and pattern_of(result._compiled) == regex')
+
+  # ---------------------------------------------------------------- with_args / equality
+  c = reg.contract(V, 'InRange.with_args', props=['C07'])
+  c.setup(_kwargs_setup)
+  c.requires('numeric_limits', ' and '.join('not isinstance(self.%s, str)' % f for f in ('_minimum', '_maximum', '_marginal_minimum', '_marginal_maximum')))
+  c.requires('constructed', 'not (%s)' % bad.replace('marginal_minimum', 'self._marginal_minimum').replace('marginal_maximum', 'self._marginal_maximum')
+             .replace(' minimum', ' self._minimum').replace('(minimum', '(self._minimum').replace(' maximum', ' self._maximum').replace('(maximum', '(self._maximum'))
+  c.returns('ref:InRange')
+  c.ensures('same_limits', 'exact_class(result, InRange) and same(result._minimum, self._minimum) and same(result._maximum, self._maximum) and '
+            'same(result._marginal_minimum, self._marginal_minimum) and same(result._marginal_maximum, self._marginal_maximum) and same(result._type, self._type)')
+  c.modifies()
+
+  c = reg.contract(V, 'InRange.__eq__', props=['C07'])
+  c.param('other', 'ref:InRange').returns('bool').modifies()
+  c.requires('limits', lim_ok).requires('other_limits', lim_ok.replace('self.', 'other.'))
+  c.ensures('equal_iff_converted_limits_equal',
+            'result == (%s == %s and %s == %s and %s == %s and %s == %s)' % (
+                lo, lo.replace('self.', 'other.'), hi, hi.replace('self.', 'other.'),
+                mlo, mlo.replace('self.', 'other.'), mhi, mhi.replace('self.', 'other.')))
+
+  c = reg.contract(V, 'WithinPercent.__eq__', props=['C07'])
+  c.param('other', 'ref:WithinPercent').returns('bool').modifies()
+  c.ensures('equal_iff_fields_equal', 'result == (self.expected == other.expected and self.percent == other.percent and self.marginal_percent == other.marginal_percent)')
+
+  # ---------------------------------------------------------------- dimension pivot
+  reg.shape('DimensionPivot', _sub_validator='fn:validator')
+  reg.opaque['validator'] = pure_function('validator', 'bool')
+  c = reg.contract(V, 'DimensionPivot.__call__', props=['C07'])
+  c.param('dimensioned_value', 'list[tuple]').returns('bool').modifies()
+  c.requires('rows_nonempty', 'all(len(row) > 0 for row in dimensioned_value)')
+  c.ensures('all_rows_last_column', 'result == all(self._sub_validator(row[-1]) for row in dimensioned_value)')
 
   reg.replayers['InRange.__call__'] = _replay_inrange('__call__')
   reg.replayers['InRange.is_marginal'] = _replay_inrange('is_marginal')
+
+
+def _kwargs_setup(ex, st, made):
+  from pyvc.engine import VPyDict
+  made['kwargs'] = VPyDict({})
 
 
 def _replay_inrange(method):
@@ -96,11 +228,12 @@ def _replay_inrange(method):
     v._type = None if not model.get('self._type') else float
     value = model.get('in_value')
     conv = (lambda x: x) if v._type is None else v._type
+    isnan = lambda x: isinstance(x, float) and math.isnan(x)
     def spec_call():
-      return (value is not None and not math.isnan(value) and (v._minimum is None or value >= conv(v._minimum))
+      return (value is not None and not isnan(value) and (v._minimum is None or value >= conv(v._minimum))
               and (v._maximum is None or value <= conv(v._maximum)))
     def spec_marginal():
-      return (value is not None and not math.isnan(value) and (
+      return (value is not None and not isnan(value) and (
           (v._marginal_minimum is not None and conv(v._minimum) <= value <= conv(v._marginal_minimum)) or
           (v._marginal_maximum is not None and conv(v._marginal_maximum) <= value <= conv(v._maximum))))
     out = {'inputs': {k: repr(getattr(v, k)) for k in ('_minimum', '_maximum', '_marginal_minimum', '_marginal_maximum', '_type')},
